@@ -3,6 +3,7 @@ import json, time
 from fractions import Fraction
 from core import build, exact
 from core.driver import Driver, DriverDied, DriverTimeout
+from core import multi
 from core.run import Acc, run_shards, finish, rng_for, NCPU
 
 PID = "C01"
@@ -59,7 +60,12 @@ def shard(p):
     cases = []
     while len(cases) < p["n"]:
         depth = rng.randint(1, p["depth"])
-        if rng.random() < 0.004:
+        if rng.random() < 0.012:
+            t = exact.gen_cancel(rng)
+            if rng.random() < 0.3:
+                t = ("bin", rng.choice("+-*"), t, exact.gen_literal(rng, 6, 3)) if rng.random() < 0.5 else ("bin", rng.choice("+-*"), exact.gen_literal(rng, 6, 3), t)
+            acc.count("cancelling_wide_term_trees")
+        elif rng.random() < 0.004:
             t = exact.gen_chain(rng, rng.choice([20, 40, 65, 100, 130, 260, 300]))      # long flat chains: counters, fixed stacks, quadratic folds
         else:
             t = exact.gen_tree(rng, depth, max_digits=p["digits"], max_exp=p["max_exp"])
@@ -103,6 +109,8 @@ def shard(p):
                     if style == "min" and kind == p["builds"][0]:
                         acc.sample({"query": q, "exact": "divide-by-zero" if e == "divzero" else str(e),
                                     "observed": [it.get("ok", {}).get("v") or it.get("err", {}).get("msg") for it in rep.get("items", [])]}, cap=2)
+            qs = [exact.render(t, "min") for t, e in cases[:4000] if len(exact.render(t, "min")) < 200]
+            multi.stage(acc, d, rng.sample(qs, min(len(qs), 300)), rng, 300, PID, kind)
         finally:
             d.close()
     return acc
